@@ -585,11 +585,24 @@ func oneTrace(w *vt.Writer, rng *rand.Rand, id int, st *stats) {
 			}
 		}(rng.Int63())
 		lap("build")
-		wg.Wait()
+		trafficDone := make(chan struct{})
+		go func() { wg.Wait(); close(trafficDone) }()
+		select {
+		case <-trafficDone:
+		case <-time.After(30 * time.Second):
+			// a BFD sender blocked in Get on an exhausted pool (leaked buffers): record and stop
+			r.mu.Lock()
+			r.add(vt.M{"ev": "stuck", "phase": "traffic"})
+			r.mu.Unlock()
+			timedOut = true
+		}
 		lap("traffic")
+		if timedOut {
+			break
+		}
 
 		// quiescence: every delivered packet's buffer and every BFD buffer went back to the pool, and
-		// all input was consumed. Fallback: no event for 5 s (a leak would otherwise hang the driver);
+		// all input was consumed. Fallback: no event for 10 s (a leak would otherwise hang the driver);
 		// the trace records which it was and TLC judges what is still held.
 		consumed := func() bool {
 			for _, c := range op.order {
@@ -622,7 +635,7 @@ func oneTrace(w *vt.Writer, rng *rand.Rand, id int, st *stats) {
 					break
 				}
 			}
-			if time.Since(time.Unix(0, r.lastEv.Load())) > 5*time.Second {
+			if time.Since(time.Unix(0, r.lastEv.Load())) > 10*time.Second {
 				r.mu.Lock()
 				r.add(vt.M{"ev": "quiescent", "timeout": true, "round": round})
 				r.mu.Unlock()
@@ -637,9 +650,18 @@ func oneTrace(w *vt.Writer, rng *rand.Rand, id int, st *stats) {
 	} // rounds
 	// shutdown: provider.Stop closes the sockets and queues and waits for receivers and senders
 	lap("quiesce")
-	v.D.Shutdown()
-	cancel()
-	<-runDone
+	// (a router whose buffer accounting is broken can block forever in Put / Get: give up after
+	// 20 s and record it; the event has no specification action)
+	shut := make(chan struct{})
+	go func() { v.D.Shutdown(); cancel(); <-runDone; close(shut) }()
+	select {
+	case <-shut:
+	case <-time.After(20 * time.Second):
+		r.mu.Lock()
+		r.add(vt.M{"ev": "stuck", "phase": "shutdown"})
+		r.mu.Unlock()
+		cancel()
+	}
 	lap("shutdown")
 	if os.Getenv("POOL_DEBUG") != "" {
 		fmt.Fprintln(os.Stderr, id, procs, tl)
